@@ -284,6 +284,48 @@ func bloomCollides(max int64, made map[int]pc.Relay) bool {
 	return false
 }
 
+// bloomAdmits: with the filter sized as GetEvidence sizes it, is the candidate free of false
+// positives against every set of at most `max` chosen hashes, and does it cause none?
+func bloomAdmits(max uint, chosen [][]byte, cand []byte) bool {
+	n := len(chosen)
+	var rec func(start int, set [][]byte) bool
+	rec = func(start int, set [][]byte) bool {
+		// candidate against this set
+		f := bloom.NewWithEstimates(max, .01)
+		for _, h := range set {
+			f.Add(h)
+		}
+		if f.Test(cand) {
+			return false
+		}
+		// this set plus the candidate against the others
+		if uint(len(set)) < max {
+			f.Add(cand)
+			for _, h := range chosen {
+				in := false
+				for _, x := range set {
+					if string(x) == string(h) {
+						in = true
+					}
+				}
+				if !in && f.Test(h) {
+					return false
+				}
+			}
+		}
+		if uint(len(set)) >= max {
+			return true
+		}
+		for i := start; i < n; i++ {
+			if !rec(i+1, append(set[:len(set):len(set)], chosen[i])) {
+				return false
+			}
+		}
+		return true
+	}
+	return rec(0, nil)
+}
+
 // labels: "r<i><v|g|a|s|r>", "c1" (iterator read), "c2" (seal)
 func labelsOf(c config) [][]string {
 	var seqs [][]string
@@ -492,16 +534,36 @@ func serialCase(r *gen.R, capEntries, nSessions int, max int64, nOps int) {
 	store.SealMap = &sync.Map{}
 	s.node.EvidenceStore = store
 	appKey, clientKey := s.appKey, s.clientKey
-	mkRelay := func(sess, id int) pc.Relay {
+	mkRelayE := func(sess int, entropy int64) pc.Relay {
 		rel := s.relays[0]
-		rel.Payload.Data = fmt.Sprintf(`{"s":%d,"id":%d}`, sess, id)
+		rel.Payload.Data = fmt.Sprintf(`{"s":%d}`, sess)
 		rel.Proof.Blockchain = chains[sess]
-		rel.Proof.Entropy = int64(5000 + 100*sess + id)
+		rel.Proof.Entropy = entropy
 		rel.Proof.RequestHash = rel.RequestHashString()
 		signToken(appKey, &rel.Proof.Token)
 		signProof(clientKey, &rel.Proof)
 		return rel
 	}
+	// The bloom filter of an evidence is sized for `max` elements (1% target), so a FRESH relay is
+	// refused as a duplicate with noticeable probability (a real availability effect of the code,
+	// harmless for the property).  The model's uniqueness test is exact, so each session gets a pool
+	// of proofs none of which is a false positive of any set of at most `max` others.
+	const poolSize = 8
+	pool := make([][]int64, nSessions) // entropy of proof id i of session s
+	idOf := make([]map[int64]int, nSessions)
+	for sess := 0; sess < nSessions; sess++ {
+		var hs [][]byte
+		idOf[sess] = map[int64]int{}
+		for e := int64(5000 + 1000*sess); len(pool[sess]) < poolSize; e++ {
+			h := mkRelayE(sess, e).Proof.Hash()
+			if bloomAdmits(uint(max), hs, h) {
+				idOf[sess][e] = len(pool[sess])
+				pool[sess] = append(pool[sess], e)
+				hs = append(hs, h)
+			}
+		}
+	}
+	mkRelay := func(sess, id int) pc.Relay { return mkRelayE(sess, pool[sess][id]) }
 	ctx := hctx{mkCtx(s.e.height), s.e}
 	next := make([]int, nSessions)       // next fresh proof id per session
 	answered := make([][]int, nSessions) // answered ids per session
@@ -514,10 +576,12 @@ func serialCase(r *gen.R, capEntries, nSessions int, max int64, nOps int) {
 		case x < 7:
 			sess := r.Intn(nSessions)
 			id := next[sess]
-			if len(answered[sess]) > 0 && r.Chance(1, 4) {
+			if len(answered[sess]) > 0 && (r.Chance(1, 4) || id >= poolSize) {
 				id = answered[sess][r.Intn(len(answered[sess]))] // replay
-			} else {
+			} else if id < poolSize {
 				next[sess]++
+			} else {
+				id = poolSize - 1
 			}
 			rel := mkRelay(sess, id)
 			out := func() (o string) {
@@ -578,7 +642,7 @@ func serialCase(r *gen.R, capEntries, nSessions int, max int64, nOps int) {
 				case *pc.RelayProof:
 					ent = rp.Entropy
 				}
-				ids = append(ids, fmt.Sprint(ent-int64(5000+100*i)))
+				ids = append(ids, fmt.Sprint(idOf[i][ent]))
 			}
 			if len(ids) > 0 {
 				st = strings.Join(ids, ".")
